@@ -6,6 +6,11 @@
 (*   lab n | i0 (nop) | i1n v (ld8 v) | i1l n (ld16 label) | i1r r (mov r) *)
 (*   | dat v w (.byte v, w) | i1c v (ld8 'c', c the character with code v) *)
 (*   | str (.cstr "a\"b", a string with an escaped quote)                  *)
+(*   | cif n v w (a conditional block on five lines: #if MODE == fast or   *)
+(*     slow / .byte v, v / #else / .byte w, w / #endif; MODE is predefined  *)
+(*     as fast, the comparison is one of texts)                            *)
+(*   | def v (#define DSYMj v / .byte DSYMj, DSYMj; j the position)        *)
+(*   | ifd v (#ifdef MODE / .byte v, v / #endif)                           *)
 (* Render(P, c) turns P into a sequence of LEXICAL ITEMS under a style c   *)
 (* per statement: letter case of the mnemonic and of a register operand,   *)
 (* kind / amount of blank between tokens, a trailing comment, blank lines, *)
@@ -31,12 +36,23 @@ Sy(case, sep, com, place) == [case |-> case, sep |-> sep, com |-> com, place |->
 
 IsInstr(s) == s.k \in {"i0", "i1n", "i1l", "i1r", "i1c"}
 \* joining: an instruction may share a line with the previous instruction, and any statement with a previous label
-CanJoin(prev, s) == (prev.k = "lab" /\ s.k # "lab") \/ (IsInstr(prev) /\ IsInstr(s))
+IsPre(s) == s.k \in {"cif", "def", "ifd"}            \* preprocessor statements always start a line
+CanJoin(prev, s) == ~IsPre(s) /\ ((prev.k = "lab" /\ s.k # "lab") \/ (IsInstr(prev) /\ IsInstr(s)))
 
 \* items: [t, a, b]
 It(t, a, b) == [t |-> t, a |-> a, b |-> b]
-StmtItems(s, y) ==
-    CASE s.k = "lab" -> <<It("LAB", s.n, "")>>
+NLI == It("NL", "", "")
+ByteLine(y, a, b) == <<It("DIR", ".byte", ""), It("BL", y.sep, ""), a, It("COMMA", y.sep, ""), b>>
+StmtItems(s, y, j) ==
+    CASE s.k = "cif" -> <<It("DIR", "#if", ""), It("BL", y.sep, ""), It("SYM", "MODE", ""), It("BL", y.sep, ""), It("OP", "==", ""),
+                          It("BL", y.sep, ""), It("WORD", IF s.n = "eq" THEN "fast" ELSE "slow", ""), NLI>>
+                        \o ByteLine(y, It("NUM", "", s.v), It("NUM", "", s.v)) \o <<NLI, It("DIR", "#else", ""), NLI>>
+                        \o ByteLine(y, It("NUM", "", s.w), It("NUM", "", s.w)) \o <<NLI, It("DIR", "#endif", "")>>
+      [] s.k = "def" -> <<It("DIR", "#define", ""), It("BL", y.sep, ""), It("DSYM", "", j), It("BL", y.sep, ""), It("NUM", "", s.v), NLI>>
+                        \o ByteLine(y, It("DSYM", "", j), It("DSYM", "", j))
+      [] s.k = "ifd" -> <<It("DIR", "#ifdef", ""), It("BL", y.sep, ""), It("SYM", "MODE", ""), NLI>>
+                        \o ByteLine(y, It("NUM", "", s.v), It("NUM", "", s.v)) \o <<NLI, It("DIR", "#endif", "")>>
+      [] s.k = "lab" -> <<It("LAB", s.n, "")>>
       [] s.k = "i0"  -> <<It("MN", "nop", y.case)>>
       [] s.k = "i1n" -> <<It("MN", "ld8", y.case), It("BL", y.sep, ""), It("NUM", "", s.v)>>
       [] s.k = "i1l" -> <<It("MN", "ld16", y.case), It("BL", y.sep, ""), It("REF", s.n, "")>>
@@ -55,13 +71,14 @@ RenderFrom(p, c, j) ==
                      ELSE IF y.place = "blank" THEN <<It("NL", "", ""), It("BL", "s3", ""), It("NL", "", "")>> ELSE <<It("NL", "", "")>>
              indent == IF ~joined /\ y.sep \in {"tab", "s3"} /\ s.k # "lab" THEN <<It("BL", y.sep, "")>> ELSE <<>>
              tail == IF y.com = "none" THEN <<>> ELSE <<It("BL", "s1", ""), It("COM", y.com, "")>>
-         IN  lead \o indent \o StmtItems(s, y) \o tail \o RenderFrom(p, c, j + 1)
+         IN  lead \o indent \o StmtItems(s, y, j) \o tail \o RenderFrom(p, c, j + 1)
 Render(p, c) == RenderFrom(p, c, 1) \o <<It("NL", "", "")>>
 
 \* the tokenizer machine: one item per step.  z = [out, cur, incom]
 Flush(z) == IF z.cur = <<>> THEN z ELSE [z EXCEPT !.out = Append(@, z.cur), !.cur = <<>>]
 Norm(it) == CASE it.t = "MN" -> <<"MN", it.a>> [] it.t = "REG" -> <<"REG", it.a>> [] it.t = "NUM" -> <<"NUM", it.b>>
               [] it.t = "CHR" -> <<"CHR", it.b>> [] it.t = "STR" -> <<"STR", 0>>
+              [] it.t \in {"SYM", "OP", "WORD"} -> <<it.t, it.a>> [] it.t = "DSYM" -> <<"DSYM", it.b>>
               [] it.t = "REF" -> <<"REF", it.a>> [] it.t = "LAB" -> <<"LAB", it.a>> [] it.t = "DIR" -> <<"DIR", it.a>> [] OTHER -> <<"?", "">>
 TokStep(z, it) ==
     IF it.t = "NL" THEN [Flush(z) EXCEPT !.incom = FALSE]
@@ -75,16 +92,24 @@ TokStep(z, it) ==
 Tokenize(items) == FoldLeft(TokStep, [out |-> <<>>, cur |-> <<>>, incom |-> FALSE], items).out
 
 \* the statement list in the tokenizer's normal form
-NormStmt(s) ==
-    CASE s.k = "lab" -> <<<<"LAB", s.n>>>>
-      [] s.k = "i0"  -> <<<<"MN", "nop">>>>
-      [] s.k = "i1n" -> <<<<"MN", "ld8">>, <<"NUM", s.v>>>>
-      [] s.k = "i1l" -> <<<<"MN", "ld16">>, <<"REF", s.n>>>>
-      [] s.k = "i1r" -> <<<<"MN", "mov">>, <<"REG", s.n>>>>
-      [] s.k = "i1c" -> <<<<"MN", "ld8">>, <<"CHR", s.v>>>>
-      [] s.k = "str" -> <<<<"DIR", ".cstr">>, <<"STR", 0>>>>
-      [] OTHER       -> <<<<"DIR", ".byte">>, <<"NUM", s.v>>, <<"NUM", s.w>>>>
-NormProg(p) == [j \in 1..Len(p) |-> NormStmt(p[j])]
+NormByte(a, b) == <<<<"DIR", ".byte">>, a, b>>
+NormStmts(s, j) ==              \* the tokenizer's statements for one abstract statement (several for the preprocessor blocks)
+    CASE s.k = "lab" -> << <<<<"LAB", s.n>>>> >>
+      [] s.k = "i0"  -> << <<<<"MN", "nop">>>> >>
+      [] s.k = "i1n" -> << <<<<"MN", "ld8">>, <<"NUM", s.v>>>> >>
+      [] s.k = "i1l" -> << <<<<"MN", "ld16">>, <<"REF", s.n>>>> >>
+      [] s.k = "i1r" -> << <<<<"MN", "mov">>, <<"REG", s.n>>>> >>
+      [] s.k = "i1c" -> << <<<<"MN", "ld8">>, <<"CHR", s.v>>>> >>
+      [] s.k = "str" -> << <<<<"DIR", ".cstr">>, <<"STR", 0>>>> >>
+      [] s.k = "cif" -> << <<<<"DIR", "#if">>, <<"SYM", "MODE">>, <<"OP", "==">>, <<"WORD", IF s.n = "eq" THEN "fast" ELSE "slow">>>>,
+                           NormByte(<<"NUM", s.v>>, <<"NUM", s.v>>), <<<<"DIR", "#else">>>>, NormByte(<<"NUM", s.w>>, <<"NUM", s.w>>),
+                           <<<<"DIR", "#endif">>>> >>
+      [] s.k = "def" -> << <<<<"DIR", "#define">>, <<"DSYM", j>>, <<"NUM", s.v>>>>, NormByte(<<"DSYM", j>>, <<"DSYM", j>>) >>
+      [] s.k = "ifd" -> << <<<<"DIR", "#ifdef">>, <<"SYM", "MODE">>>>, NormByte(<<"NUM", s.v>>, <<"NUM", s.v>>), <<<<"DIR", "#endif">>>> >>
+      [] OTHER       -> << NormByte(<<"NUM", s.v>>, <<"NUM", s.w>>) >>
+RECURSIVE NormFrom(_, _)
+NormFrom(p, j) == IF j > Len(p) THEN <<>> ELSE NormStmts(p[j], j) \o NormFrom(p, j + 1)
+NormProg(p) == NormFrom(p, 1)
 
 \* what P assembles to on the carrier ISA (labels are addresses; little endian 16 bit operands)
 Size(s) == CASE s.k = "lab" -> 0 [] s.k = "i0" -> 1 [] s.k = "i1l" -> 3 [] s.k = "str" -> 4 [] OTHER -> 2
@@ -96,6 +121,8 @@ StmtBytes(p, s) ==
       [] s.k = "i1r" -> <<192, IF s.n = "a" THEN 1 ELSE 2>>
       [] s.k = "i1c" -> <<168, s.v>>
       [] s.k = "str" -> <<97, 34, 98, 0>>
+      [] s.k = "cif" -> IF s.n = "eq" THEN <<s.v, s.v>> ELSE <<s.w, s.w>>     \* MODE is fast: the texts are compared
+      [] s.k \in {"def", "ifd"} -> <<s.v, s.v>>
       [] OTHER -> <<s.v, s.w>>
 \* the local label l1 lives in the region opened by the global label g1: g1 has to come before its definition and uses
 LocalOk(p) == \A j \in 1..Len(p) : (p[j].n = "l1" /\ p[j].k \in {"lab", "i1l"}) =>
